@@ -32,8 +32,12 @@ impl<'js> IntoJs<'js> for ActValue {
             serde_json::Value::Bool(v) => JsValue::new_bool(ctx.clone(), v),
             serde_json::Value::Number(v) => {
                 if v.is_i64() {
-                    let v = v.as_i64().unwrap_or_default() as i32;
-                    JsValue::new_int(ctx.clone(), v)
+                    let n = v.as_i64().unwrap_or_default();
+                    match i32::try_from(n) {
+                        Ok(v) => JsValue::new_int(ctx.clone(), v),
+                        // beyond 32 bits: a js number
+                        Err(_) => JsValue::new_float(ctx.clone(), n as f64),
+                    }
                 } else if v.is_f64() {
                     let v = v.as_f64().unwrap_or_default();
                     JsValue::new_float(ctx.clone(), v)
